@@ -13,13 +13,13 @@ pub static DEF: CheckDef = CheckDef {
     id: "C09",
     run,
     replay,
-    rule: "the structured programs of C04 (interrupt handlers, timer/LCD interrupts, EI;HALT, STOP, DMA, RAM code, far calls, DI sections) are run in three stepping modes - interpreter build stepped with update() (one instruction per step), interpreter build block-stepped, jit build block-stepped - in lock-step with the reference machine (models::sm83 + models::irq on a twin bus), which computes for every step how many machine cycles the CPU consumed. After every step: the clocks delivered at the MemoryAreas boundary (hook: running total) must equal 4 x (machine cycles of the instruction(s) executed + 5 carried over from a dispatch in the previous step), exactly 4 for a halted/stopped step, and never less than 4; every device must have received them (timer divider phase, LCD mode/dot/line, DMA progress equal to the twin's); the interrupt check must come after the catch-up (PC, SP, IF, IME, run state equal to the reference, which samples after delivering); the 5 dispatch cycles must be pending (Registers.cycles) and last_block_cycle_length must equal the cycles delivered in block modes. At the end of every run Core::run_frame() is called: it must return, having delivered at most 2 x 70224 clocks plus one block, and leave the LCD outside mode 1 just after a vertical blank. Non-trivial = run containing a dispatch, a suspended stretch and a multi-cycle block (measured); distinct by hash of (program, mode).",
+    rule: "the structured programs of C04 (interrupt handlers, timer/LCD interrupts, EI;HALT, STOP, DMA, RAM code, far calls, DI sections) are run in three stepping modes - interpreter build stepped with update() (one instruction per step), interpreter build block-stepped, jit build block-stepped - in lock-step with the reference machine (models::sm83 + models::irq on a twin bus), which computes for every step how many machine cycles the CPU consumed. After every step: the clocks delivered at the MemoryAreas boundary (hook: running total) must equal 4 x (machine cycles of the instruction(s) executed + 5 carried over from a dispatch in the previous step), exactly 4 for a halted/stopped step, and never less than 4; every device must have received them (timer divider phase, LCD mode/dot/line, DMA progress equal to the twin's); the interrupt check must come after the catch-up (PC, SP, IF, IME, run state equal to the reference, which samples after delivering); the 5 dispatch cycles must be pending (Registers.cycles) and last_block_cycle_length must equal the cycles delivered in block modes. Four hand-written corner programs (a dispatch cancelled by its own push with SP = 0x0000, a dispatch whose push lands on IE without cancelling, one landing on IF, a wake-up out of HALT with SP wrapping) run the same way. At the end of every run Core::run_frame() is called: it must return, having delivered at most 2 x 70224 clocks plus one block, and leave the LCD outside mode 1 just after a vertical blank. Non-trivial = run containing a dispatch, a suspended stretch and a multi-cycle block (measured); distinct by hash of (program, mode).",
     assumptions: &[
         "models::sm83 (cycle counts incl. taken/not-taken), models::irq; block extent = up to the next terminator or the 16 KiB ROM boundary; EI at a block end takes effect at the block boundary in block modes",
         "a run ends where the reference meets an undefined opcode or HALT with an enabled request pending (counted)",
         "run_frame() is called in a forked child with a 4 s alarm (a frame takes about a millisecond), so a call that never returns is reported as such; device positions are also checked in closed form (divider = clocks since the last DIV write, LCD line/mode = models::lcd at the delivered total), independently of the twin",
     ],
-    required_classes: &["mode-instruction", "mode-block-interpreter", "mode-block-jit", "dispatch", "suspended-stretch", "multi-cycle-block", "carried-dispatch-cycles", "run-frame"],
+    required_classes: &["mode-instruction", "mode-block-interpreter", "mode-block-jit", "dispatch", "suspended-stretch", "multi-cycle-block", "carried-dispatch-cycles", "run-frame", "corner-program"],
     exhaustive: false,
 };
 
@@ -73,14 +73,43 @@ fn compare(a: &dyn Emu, r: &RefMachine<i::M>, step: u32, what: &str) -> CaseResu
 
 fn run_mode(spec: &ProgSpec, mode: u8, steps: u32, st: &mut Stats) -> CaseResult {
     let (rom, _) = assemble(spec);
-    let mut ai = i::M::new(&rom);
-    let mut aj = j::M::new(&rom);
+    run_rom(&rom, mode, steps, st)
+}
+
+/// hand-written programs for dispatch corners the generator does not reach:
+/// a dispatch cancelled by its own push (SP = 0x0000, the high byte of PC lands on
+/// IE), a push landing on IF, dispatch out of HALT with SP at the wrap
+fn corner_roms() -> Vec<(&'static str, crate::rom::RomImage)> {
+    let mut v = Vec::new();
+    let mk = |code: &[u8]| {
+        let mut rom = std_rom();
+        rom.bytes[0x100..0x104].copy_from_slice(&[0x00, 0xc3, 0x50, 0x01]);
+        rom.bytes[0x150..0x150 + code.len()].copy_from_slice(code);
+        // every vector and address 0: a short handler that returns with interrupts off
+        for a in [0x00usize, 0x40, 0x48, 0x50, 0x58, 0x60] {
+            rom.bytes[a..a + 3].copy_from_slice(&[0x3c, 0x18, 0xfe]); // INC A; JR -2 (stay)
+        }
+        rom
+    };
+    // cancelled dispatch: IE = IF = timer, SP = 0, PC high byte 0x01 -> IE becomes 0x01
+    v.push(("cancelled-dispatch", mk(&[0xf3, 0x31, 0x00, 0x00, 0x3e, 0x04, 0xe0, 0xff, 0x3e, 0x04, 0xe0, 0x0f, 0xfb, 0x00, 0x00, 0x00, 0x18, 0xfe])));
+    // not cancelled: IE = IF = VBlank, SP = 0, PC high 0x01 keeps bit 0
+    v.push(("dispatch-push-on-ie", mk(&[0xf3, 0x31, 0x00, 0x00, 0x3e, 0x01, 0xe0, 0xff, 0x3e, 0x01, 0xe0, 0x0f, 0xfb, 0x00, 0x00, 0x00, 0x18, 0xfe])));
+    // push landing on IF: SP = 0xFF10
+    v.push(("dispatch-push-on-if", mk(&[0xf3, 0x31, 0x10, 0xff, 0x3e, 0x1f, 0xe0, 0xff, 0x3e, 0x04, 0xe0, 0x0f, 0xfb, 0x00, 0x00, 0x00, 0x18, 0xfe])));
+    // dispatch out of HALT with SP = 0x0001 (wraps), timer running
+    v.push(("halt-wake-sp-wrap", mk(&[0xf3, 0x31, 0x01, 0x00, 0x3e, 0xfc, 0xe0, 0x05, 0x3e, 0x05, 0xe0, 0x07, 0x3e, 0x04, 0xe0, 0xff, 0xfb, 0x76, 0x00, 0x18, 0xfe])));
+    v
+}
+
+fn run_rom(rom: &crate::rom::RomImage, mode: u8, steps: u32, st: &mut Stats) -> CaseResult {
+    let rom = rom.clone();
+    let mut boxed: Box<dyn Emu> = if mode == 2 { Box::new(j::M::new(&rom)) } else { Box::new(i::M::new(&rom)) };
     let mut t = i::M::new(&rom);
-    ai.fill_ram(0xc09);
-    aj.fill_ram(0xc09);
+    boxed.fill_ram(0xc09);
     t.fill_ram(0xc09);
     let mut r = RefMachine::new(t);
-    let a: &mut dyn Emu = if mode == 2 { &mut aj } else { &mut ai };
+    let a: &mut dyn Emu = &mut *boxed;
     let mut suspended_run = 0;
     let mut total: u64 = 0;
     let mut div_base: u64 = 0;
@@ -258,6 +287,22 @@ fn run(rec: &mut Rec) {
     if rec.ctx.nshards >= 4 && rec.ctx.shard % 2 == 1 {
         return;
     }
+    if rec.ctx.shard == 0 {
+        for (name, rom) in corner_roms() {
+            for mode in 0..3u8 {
+                let case = json!({"kind": "corner-program", "name": name, "mode": mode});
+                rec.current(&case.to_string());
+                rec.eval(1);
+                rec.class("corner-program", 1);
+                rec.nontrivial_direct(1);
+                let mut st = Stats::default();
+                st.try_frame = false;
+                if let Err(f) = run_rom(&rom, mode, 60, &mut st) {
+                    rec.violation(&format!("{}-{}", name, f.sig), case, f.detail);
+                }
+            }
+        }
+    }
     let steps = rec.ctx.tier.pick(2500u32, 25_000);
     let cases = rec.ctx.tier.pick(250u32, 5000);
     let strat = (prog_strategy(40), 0u8..3);
@@ -278,6 +323,20 @@ fn run(rec: &mut Rec) {
 }
 
 fn replay(case: &Value, rec: &mut Rec) {
+    if case.get("kind").and_then(|k| k.as_str()) == Some("corner-program") {
+        let name = case.get("name").and_then(|v| v.as_str()).unwrap_or("");
+        let mode = case.get("mode").and_then(|v| v.as_u64()).unwrap_or(0) as u8 % 3;
+        for (n, rom) in corner_roms() {
+            if n == name {
+                let mut st = Stats::default();
+                rec.eval(1);
+                if let Err(f) = run_rom(&rom, mode, 60, &mut st) {
+                    rec.violation(&format!("{}-{}", n, f.sig), case.clone(), f.detail);
+                }
+            }
+        }
+        return;
+    }
     let spec: ProgSpec = match case.get("spec").cloned().and_then(|v| serde_json::from_value(v).ok()) {
         Some(s) => s,
         None => {
